@@ -1,15 +1,23 @@
 #!/bin/sh
-# usage: try_seed.sh <slot> <PID> [tier]   apply a seeded change to /repo, run the check, undo the change.
-# Evidence/replays go to /verif/.scratch/<slot>/ so the committed evidence is untouched.
+# usage: try_seed.sh <slot> <PID> [tier]
+# Applies a seeded change to a scratch worktree of /repo's HEAD (under /tmp/seedrun, removed afterwards), runs the check
+# against it (PYTHONPATH puts the worktree before the /repo entry of the venv) and prints the interface lines.
+# Evidence / replays go to /verif/.scratch/<slot>/ so the committed evidence is untouched.  /repo itself is not modified.
+# (The documented alternative - git -C /repo apply, run, git -C /repo checkout -- . - gives the same result.)
 slot="$1"; pid="$2"; tier="${3:-quick}"
 patch=/verif/seeded/$slot/patch.diff
 [ -f "$patch" ] || patch=/tmp/seed/$slot/out/patch.diff
-cd /repo || exit 2
-if [ -n "$(git status --porcelain -- valjean)" ]; then echo "repo not clean"; exit 2; fi
-git apply "$patch" 2>/dev/null || git apply --3way "$patch" || { git reset -q HEAD -- valjean; git checkout -- valjean; exit 2; }
-mkdir -p /verif/.scratch/$slot
-VF_OUT=/verif/.scratch/$slot /verif/vf check "$pid" --tier "$tier" > /verif/.scratch/$slot/$pid.$tier.log 2>&1
+wt=/tmp/seedrun/$slot.$pid.$$
+mkdir -p /tmp/seedrun /verif/.scratch/$slot
+git -C /repo worktree add --detach "$wt" HEAD >/dev/null 2>&1 || { echo "cannot create worktree"; exit 2; }
+cleanup() { git -C /repo worktree remove --force "$wt" >/dev/null 2>&1; rm -rf "$wt"; }
+if ! git -C "$wt" apply "$patch" 2>/dev/null; then
+  if ! git -C "$wt" apply --3way "$patch" >/dev/null 2>&1 || [ -n "$(git -C "$wt" diff --name-only --diff-filter=U)" ]; then
+    echo "slot=$slot pid=$pid patch does not apply"; cleanup; exit 2
+  fi
+fi
+PYTHONPATH="$wt" VF_OUT=/verif/.scratch/$slot /verif/vf check "$pid" --tier "$tier" > /verif/.scratch/$slot/$pid.$tier.log 2>&1
 rc=$?
-git reset -q HEAD -- valjean; git checkout -- valjean
+cleanup
 echo "slot=$slot pid=$pid tier=$tier rc=$rc"
 grep -E "VIOLATION|KNOWN-FINDING|key=|^$pid " /verif/.scratch/$slot/$pid.$tier.log | head -12
